@@ -209,3 +209,36 @@ fn d10_http_content_length() {
     let cl: usize = s.lines().find(|l| l.starts_with("Content-Length:")).unwrap()["Content-Length:".len()..].trim().parse().unwrap();
     assert_eq!(cl, body.len(), "Content-Length {} but {} body bytes", cl, body.len());
 }
+
+pub fn tcp4_frame(sport: u16, dport: u16, flags: u8, seq: u32, ack: u32, payload: &[u8]) -> Vec<u8> {
+    let mut f = vec![0xc0,0xff,0xee,0xc0,0xff,0xee, 2,2,2,2,2,2, 0x08,0x00];
+    let tl = (20 + 20 + payload.len()) as u16;
+    let mut ip = vec![0x45,0, (tl>>8) as u8, tl as u8, 0,0, 0x40,0, 64, 6, 0,0, 10,0,0,2, 10,0,0,1];
+    ip.extend_from_slice(&[(sport>>8) as u8, sport as u8, (dport>>8) as u8, dport as u8]);
+    ip.extend_from_slice(&seq.to_be_bytes());
+    ip.extend_from_slice(&ack.to_be_bytes());
+    ip.extend_from_slice(&[0x50, flags, 0xff,0xff, 0,0, 0,0]);
+    ip.extend_from_slice(payload);
+    f.extend(ip);
+    f
+}
+fn tcp_payload_of(r: &MutableEthernetPacket) -> Vec<u8> { r.packet()[14 + 20 + 20..].to_vec() }
+fn handshake(m: &Masscanned, sport: u16) -> u32 {
+    let r = reply(&tcp4_frame(sport, 80, 0x02, 1000, 0, b""), m).expect("no SYN-ACK");
+    let b = r.packet();
+    u32::from_be_bytes([b[14+20+4], b[14+20+5], b[14+20+6], b[14+20+7]])
+}
+#[test]
+fn d9_http_split_in_method() {
+    let m = mk(None);
+    // unsegmented: answered with 401
+    let c = handshake(&m, 41001);
+    let r = reply(&tcp4_frame(41001, 80, 0x18, 1001, c.wrapping_add(1), b"GET / HTTP/1.1\r\n\r\n"), &m).expect("no reply");
+    assert!(tcp_payload_of(&r).starts_with(b"HTTP/1.1 401"));
+    // same stream cut inside the method token: the reply must come with the segment that completes the request
+    let c = handshake(&m, 41002);
+    let r1 = reply(&tcp4_frame(41002, 80, 0x18, 1001, c.wrapping_add(1), b"GE"), &m).expect("no ack");
+    assert!(tcp_payload_of(&r1).is_empty());
+    let r2 = reply(&tcp4_frame(41002, 80, 0x18, 1003, c.wrapping_add(1), b"T / HTTP/1.1\r\n\r\n"), &m).expect("no reply");
+    assert!(tcp_payload_of(&r2).starts_with(b"HTTP/1.1 401"), "segmented request was not answered: {:?}", tcp_payload_of(&r2));
+}
